@@ -15,7 +15,8 @@ PROPS = {
  "C01": dict(
   families=[dict(name="suite2020", model="val", quick=0, thorough=0),
             dict(name="val", model="val", quick=1200, thorough=30000),
-            dict(name="uneval", model="val", quick=400, thorough=10000)],
+            dict(name="uneval", model="val", quick=400, thorough=10000),
+            dict(name="unevalt", model="val", quick=600, thorough=15000)],
   ignore_keys=["calls"],
   rule="schema documents over the full 2020-12 keyword set (G-val: 1-4 keywords per object from 40 choices, nesting <= 4, $defs/$ref/$anchor with instance-descending recursion, shared pools of 6 names / 9 strings / 18 numbers incl. +-2^53, 9 regexps), 14 instances per schema (6 schema-guided, 6 single-point mutations, 2 random); plus every group of the official 2020-12 suite with its expected verdicts; "
        "non-trivial: >= 3 distinct keywords in the document; distinct by keyword multiset",
@@ -39,8 +40,9 @@ PROPS = {
   assumptions=["universes are coherent: the loader returns a fresh copy of the same document for a URI"],
  ),
  "C07": dict(
-  families=[dict(name="uneval", model="val", quick=1500, thorough=40000),
-            dict(name="val", model="val", quick=500, thorough=10000)],
+  families=[dict(name="uneval", model="val", quick=1000, thorough=40000),
+            dict(name="unevalt", model="val", quick=1500, thorough=40000),
+            dict(name="val", model="val", quick=300, thorough=10000)],
   ignore_keys=["calls"],
   rule="G-val with the unevaluated profile (2-4 keywords per object, biased to properties/patternProperties/additionalProperties/prefixItems/items/contains/in-place applicators/$ref/unevaluated*), instances over a pool of 6 names and small item pools; non-trivial: >= 3 distinct keywords; distinct by keyword multiset",
   trusted_base=["regexp oracle", "encoding/json text layer"],
